@@ -47,7 +47,13 @@ Record run := mkRun { r_idxs : list nat; r_now : Z; r_outcome : N; r_meta : opti
 
 Definition run_meta (m0 : meta) (r : run) : meta := match r_meta r with Some m => m | None => m0 end.
 
-Inductive case := CMap (m0 : meta) (rp : policy) (pts : list point) (main : run) (subs : list run).
+Inductive case :=
+| CMap (m0 : meta) (rp : policy) (pts : list point) (main : run) (subs : list run)
+(* the metadata built by the history, observed before and after a Data.MarshalBinary /
+   UnmarshalBinary round trip (what every data node's client cache actually holds): routing
+   reads only these fields, so the round trip must be the identity on them (the model of the
+   round trip is the identity) *)
+| CRt (before after : meta).
 
 (* ---------- executable spec on one observed run (compare Spec.v) ---------- *)
 Definition spec_run (m0 : meta) (rp : policy) (pts : list point) (r : run) : bool :=
@@ -106,4 +112,5 @@ Definition check_case (c : case) : N :=
       (* sub-batches start from the metadata the implementation left after the main batch *)
       let rs := map (check_run (run_meta m0 main) rp pts) subs in
       code (fst rm && forallb fst rs) (snd rm && forallb snd rs)
+  | CRt before after => code (meta_eqb before after) (meta_eqb before after)
   end.
